@@ -27,14 +27,18 @@ CLAIMED["C01"] = dict(
          "of - the specificity table, the per-pair elimination step of best(), applicability = membership in the covariant set, table geometry "
          "(strides, row-major recursion, group numbering), cell choice for 0/1/2+ best definitions, the run-time model mirroring the registrations "
          "one to one, slot choice and reservation, and the v-table pointer table being written (overwriting) at the key it is read at. That these "
-         "steps compose to the right definition for every lattice (an induction over graph algorithms on run-time data) is not decided.",
+         "steps compose to the right definition for every lattice (an induction over graph algorithms on run-time data) is not decided. The rule "
+         "families of C04 (layout), C05 (hash), C08 (class merge, closure), C10 (projection, deferred ids) and the phase rule of C15 also run here: a "
+         "change they catch changes which definition runs.",
     design_ref="DESIGN.md section 4, C01")
 CLAIMED["C02"] = dict(
     technique="IR symbolic summaries of the ids/constants stored into resolution_error; must-reach-abort path query after every handler call; landing-pad scan of the call path",
     text="Decides the handler side of the property for all instantiations of the witness matrix: ids reported are Policy::dynamic_type of exactly "
          "the virtual arguments' objects in order, arity/status constants are right and the right handler sits in each method_info field; after "
          "every call of a policy error handler anywhere in the library every normal path aborts before returning; no catch / noexcept boundary on "
-         "the path swallows a throwing handler's exception. Does not decide that error cells are placed in the right table cells for every registry.",
+         "the path swallows a throwing handler's exception; plus the AST rules on what makes a call unresolvable (specificity table, elimination step, "
+         "cells for 0 / 2+ best definitions, applicability, class merge, run-time model, every definition registered). Does not decide that error cells "
+         "are placed in the right table cells for every registry.",
     design_ref="DESIGN.md section 4, C02")
 CLAIMED["C20"] = dict(engine="e3",
     technique="generated static_assert witnesses decided by the type checker",
@@ -91,13 +95,16 @@ CLAIMED["C03"] = dict(engine="yast",
          "stored through a definition's next is the sole best candidate's function, the not-implemented handler when there is none and the ambiguity "
          "handler when there are several; candidates are exactly is_base(other, this); the store is control dependent only on the two loops and the "
          "pointer's own null test, so every update recomputes it for every definition; the candidate list is filled by that filter over all the "
-         "method's definitions and by nothing else; best()'s per-pair elimination step is the documented one. Does not decide the fold of best() over every lattice.",
+         "method's definitions and by nothing else (the filter lambda is exactly the is_base call); best()'s per-pair elimination step is the documented "
+         "one; the run-time model and the class merge next is computed from. Does not decide the fold of best() over every lattice.",
     design_ref="DESIGN.md section 4, C03")
 CLAIMED["C17"] = dict(engine="yast",
     technique="AST decision tables with symbolic guards; sibling-guard comparison; field pairing",
     text="Decides the counting structure: for a best set of size 0 / 1 / 2+ exactly the matching counters are incremented next to the matching cell, "
          "the two concrete_* counters carry the same guard (concreteness of the outer dimensions and of the current group), accumulate adds each "
-         "per-method counter to the field of the same name. Does not decide that the cells enumerate real class tuples (run-time grouping).",
+         "per-method counter to the field of the same name; a cell of undetermined kind is never appended uncounted; cells / concrete_cells are the "
+         "products over every dimension of the (concrete) group counts; a group's concreteness is accumulated over all its classes; the resolution "
+         "rules of C01 decide what a gap / an ambiguity is. Does not decide that the cells enumerate real class tuples (run-time grouping).",
     design_ref="DESIGN.md section 4, C17")
 CLAIMED["C05"] = dict(engine="yast",
     technique="AST path enumeration of the hash-search scan body; expression equality of probe and look-up; CFG control dependence of the publishing calls",
@@ -123,7 +130,8 @@ CLAIMED["C04"] = dict(engine="yast",
          "every base and propagate it through every covariant class and its bases are guarded by nothing beyond the visited check and the loops, range "
          "over transitive_bases / covariant_classes, and the slot chosen is free in used AND reserved sets; tree numbering is consecutive (symbolic "
          "counter), sizes the v-table and seeds the derived classes with the counter, and is only chosen when no class at or below the root has "
-         "several bases; every parameter registers the pair (its method, its position). That "
+         "several bases and descends into every derived class; every parameter registers the pair (its method, its position); classes get cells by "
+         "covariant-set membership over completely merged records; the v-table pointer table is overwritten by every update. That "
          "the allocation is collision-free and the tables large enough for every lattice (a graph algorithm over run-time data) is NOT decided.",
     design_ref="DESIGN.md section 4, C04")
 CLAIMED["C07"] = dict(engine="yast",
